@@ -36,7 +36,8 @@ pub fn run(args: &[&str]) -> Option<String> {
                 for c in 0..=mc {
                     v.push(match guarded(AssertUnwindSafe(|| api::from_pos(&m, l, c))) {
                         Some(Some(p)) => p.to_string(),
-                        _ => "!".into(),
+                        Some(None) => "e".into(),
+                        None => "!".into(),
                     });
                 }
             }
